@@ -534,7 +534,7 @@ func b2i(b bool) int {
 	return 0
 }
 
-func qtext(s string) string   { return strconv.Quote(s) }
+func qtext(s string) string { return strconv.Quote(s) }
 func unq(s string) string {
 	u, err := strconv.Unquote(s)
 	if err != nil {
